@@ -39,7 +39,7 @@ TNext ==
   \/ IsEvent("OpenDst") /\ Cur(T.f) /\ OpenDst(T.excl, R(T.res))
   \/ IsEvent("CloseDir") /\ CloseDir(R(T.res))
   \/ IsEvent("FstatDst") /\ (cfg.stdout \/ Cur(T.f)) /\ T.to = (IF cfg.stdout THEN "out" ELSE "dst") /\ FstatDst(R(T.res))
-  \/ IsEvent("Lseek") /\ (cfg.stdout \/ Cur(T.f)) /\ T.to = (IF cfg.stdout THEN "out" ELSE "dst") /\ Lseek(R(T.res))
+  \/ IsEvent("Lseek") /\ (cfg.stdout \/ Cur(T.f)) /\ T.to = (IF cfg.stdout THEN "out" ELSE "dst") /\ Lseek(R(T.res), T.own)
   \/ IsEvent("Write") /\ Cur(T.f) /\ T.to = (IF cfg.stdout THEN "out" ELSE "dst") /\ Write(T.k, T.full)
   \/ IsEvent("Fchown") /\ Cur(T.f) /\ Fchown(R(T.res))
   \/ IsEvent("Fchmod") /\ Cur(T.f) /\ Fchmod(R(T.res))
